@@ -27,29 +27,17 @@ theorem C19_tags (c : Cfg) (s t : Nat) :
     isTag c s t = true ↔ (t ∈ (c.args s).tags ∨ (t = 0 ∧ (c.args s).accepted = true)) :=
   isTag_iff c s t
 
-/-- **Tags on the built machine, full strength** — `TagsExact defs heap` (Model/Features.lean): after
-`add_states`, every state answers `is_<t>` exactly for the tags of its own definition.  This is what the
-property asks; it is **false** of the code (known finding F-C19-shared-tags-list: `Error.__init__` appends
-'accepted' to the caller's list object, so a state that shares its `tags=` list with an accepted state
-becomes accepted too).  It holds under the exclusion `NoSharedAccepted`: -/
-theorem C19_tags_built_partial (defs : List SDef) (heap : Nat → List Nat) (h : NoSharedAccepted defs) :
-    TagsExact defs heap :=
-  tagsExact_of_noShared defs heap h
+/-- **Tags on the built machine, full strength.** After `add_states`, every state answers `is_<t>`
+exactly for the tags of its *own* definition (+ 'accepted' iff declared accepted) — for every list of
+definitions and every heap of caller-side list objects, shared between definitions or not.
+(Former finding F-C19-shared-tags-list, fixed in /repo 3389265: `Error.__init__` used to append to the
+caller's list object, which made every state sharing it accepted.) -/
+theorem C19_tags_built (defs : List SDef) (heap : Nat → List Nat) : TagsExact defs heap :=
+  tagsExact defs heap
 
-/-- witness: list object 0 = ['t1'] (tag 1) passed to state 1 (accepted) and to state 2 (not accepted) -/
-def C19_witness : List SDef := [{ name := 1, tagsRef := some 0, accepted := true }, { name := 2, tagsRef := some 0 }]
-
-/-- the negation of the full-strength statement on the witness: state 2 answers `is_accepted` True -/
-theorem C19_tags_built_counterexample : ¬ TagsExact C19_witness (fun _ => [1]) := by
-  intro h
-  have h2 := (h { name := 2, tagsRef := some 0 } (by decide) 0).mp (by decide)
-  revert h2
-  decide
-
-/-- … and therefore entering it, a dead end, does not raise although it was never declared accepted -/
-theorem C19_error_counterexample :
-    (enterOp { feats := [.error], args := builtArgs C19_witness (fun _ => [1]), hasOut := fun _ => false }
-      2 0 1 FS.init).2 = .entered := by decide
+/-- … and construction leaves the caller's list objects as they were. -/
+theorem C19_caller_lists_unchanged (defs : List SDef) (heap : Nat → List Nat) : initHeap defs heap = heap :=
+  initHeap_eq defs heap
 
 /-- **Error.** With `Error` anywhere in the decorator, entering `s` raises MachineError iff `s` has no
 outgoing transition and is not accepted — in every feature state, whatever else is composed before or
@@ -221,6 +209,14 @@ example : ((runOps (cfg [.volatile, .error]) [.enter 2 0 0] FS.init).hooks 0 0,
 -- a model placed in a Retry state without an entry (initial state) gets one more allowed re-entry
 example : outcomes (cfg all) [.enter 1 0 1, .enter 1 0 1, .enter 1 0 1, .enter 1 0 1] FS.init
     = [.entered, .entered, .entered, .failed] := by decide
+-- regression of the former finding: list object 0 = ['t1'] handed to state 1 (accepted) and to state 2 (not):
+-- state 2 is not accepted, and entering it as a dead end raises
+example : isTag { feats := [.error], hasOut := fun _ => false,
+                  args := builtArgs [{ name := 1, tagsRef := some 0, accepted := true }, { name := 2, tagsRef := some 0 }]
+                            (fun _ => [1]) } 2 0 = false := by decide
+example : (enterOp { feats := [.error], hasOut := fun _ => false,
+                     args := builtArgs [{ name := 1, tagsRef := some 0, accepted := true }, { name := 2, tagsRef := some 0 }]
+                               (fun _ => [1]) } 2 0 1 FS.init).2 = .raised := by decide
 -- FeatureFree is inhabited on a machine with every feature
 example : FeatureFree (cfg all) 0 := ⟨rfl, fun _ => .inl (by decide)⟩
 
